@@ -419,16 +419,17 @@ def run_once(entry, selfkind, shapes, seed, obs, label):
             if isinstance(S, tuple):
                 for s_ in S:
                     mine += [v for v in (vars(s_).values() if hasattr(s_, "__dict__") else []) if isinstance(v, np.ndarray)]
+            # control (before anything is edited, and kept by value): the same two calls on a fresh receiver without an edit in
+            # between (a method that appends to its receiver legitimately answers differently the second time -- in both
+            # histories alike)
+            try:
+                Sc = make_self(selfkind)
+                Ac = build_args(entry, shapes, Sc, seed)
+                entry.call(Ac, Sc)
+                control = ("ok", copy.deepcopy(entry.call(Ac, Sc)))
+            except Exception as e:  # noqa: BLE001
+                control = ("err", type(e).__name__)
             if saved is not None and edit_result(res, mine):
-                # control: the same two calls on a fresh receiver without the edit in between (a method that appends to its
-                # receiver legitimately answers differently the second time -- in both histories alike)
-                try:
-                    Sc = make_self(selfkind)
-                    Ac = build_args(entry, shapes, Sc, seed)
-                    entry.call(Ac, Sc)
-                    control = ("ok", entry.call(Ac, Sc))
-                except Exception as e:  # noqa: BLE001
-                    control = ("err", type(e).__name__)
                 try:
                     again = ("ok", entry.call(A, S))
                 except Exception as e:  # noqa: BLE001
